@@ -161,7 +161,8 @@ func checkC15(p *Prog, r *Report) {
 				r.Check("R3", key+"|level-filter", okItem, p.InstrPos(site), "only handlers subscribed at the level being processed are invoked")
 				// R4 snapshot
 				recv := Path(c.Value)
-				r.Check("R4", key+"|snapshot", !strings.Contains(recv, "recv.handlers") && !strings.Contains(recv, "Events.handlers"), p.InstrPos(site), "handler taken from "+recv)
+				live := "." + FN("events.handlers") + "["
+				r.Check("R4", key+"|snapshot", !strings.Contains(recv, "recv"+live) && !strings.Contains(recv, "Events"+live), p.InstrPos(site), "handler taken from "+recv)
 			})
 		}
 	})
@@ -235,7 +236,11 @@ func checkC15(p *Prog, r *Report) {
 	r.Check("R3", FnName(publish)+"|levels-outermost", okNest, p.Pos(publish.Pos()), "the level loop encloses the handler loop. "+nestDetail)
 	// level sequence starts with core
 	first := int64(-1)
-	for _, b := range publish.Blocks {
+	var levelBlocks []*ssa.BasicBlock
+	for _, sf := range p.ScopeFns(publish) { // the level sequence may sit in an extracted dispatch helper
+		levelBlocks = append(levelBlocks, sf.Blocks...)
+	}
+	for _, b := range levelBlocks {
 		for _, ins := range b.Instrs {
 			ia, ok := ins.(*ssa.IndexAddr)
 			if !ok {
@@ -267,7 +272,11 @@ func checkC15(p *Prog, r *Report) {
 	okCopy := false
 	p.InScope(publish, func() {
 		forEachCall(publish, func(site ssa.CallInstruction) {
-			if builtinName(site.Common()) == "copy" && strings.HasSuffix(Path(site.Common().Args[1]), "."+FN("events.handlers")) {
+			isCopy := builtinName(site.Common()) == "copy" && strings.HasSuffix(Path(site.Common().Args[1]), "."+FN("events.handlers"))
+			if callee := site.Common().StaticCallee(); callee != nil && fnPkgPath(callee) == "slices" && originName(callee) == "Clone" && len(site.Common().Args) == 1 && strings.HasSuffix(Path(site.Common().Args[0]), "."+FN("events.handlers")) {
+				isCopy = true // slices.Clone allocates a new backing array
+			}
+			if isCopy {
 				for lp := range ls.At(site.(ssa.Instruction)) {
 					if lastComp(lp) == guardLock {
 						okCopy = true
